@@ -114,6 +114,9 @@ def run(rng, tier, res=None, want=("knnpred", "select")):
                 inj = [rng.choice([0.0, 0.0, 0.25, 0.5, 0.5, 0.75, 1.0]) for _ in range(max_k + 2)]
 
                 def acc_wrap(a, b):
+                    if [int(t) for t in a] != [int(t) for t in Yv]:
+                        viol("C16", f"validation accuracy evaluated as opf_accuracy({[int(t) for t in a][:6]}..., ...): its first argument is not the "
+                                    f"validation labels {Yv.tolist()[:6]}... (true and predicted labels exchanged?)", meta)
                     v = G.opf_accuracy(a, b)
                     if inject:
                         v = inj[len(crit)]
